@@ -1,0 +1,98 @@
+//go:build verif
+
+package replica
+
+import (
+	"github.com/lindb/lindb/models"
+	"github.com/lindb/lindb/pkg/queue"
+)
+
+// Verification hooks for property C08 (replication). Only compiled with -tags verif; add-only:
+// nothing here changes the behaviour of production code.
+
+// verifNoLoopPartition is a Partition whose StartReplica does not start the free-running replicaLoop
+// goroutine: the verification harness performs every replication step itself (VerifReplicaStep).
+type verifNoLoopPartition struct {
+	Partition
+}
+
+// StartReplica does nothing.
+func (verifNoLoopPartition) StartReplica() {}
+
+// VerifNoLoop decorates a partition so that StartReplica is a no-op (to be used from a wrapper of NewPartitionFn).
+func VerifNoLoop(p Partition) Partition { return verifNoLoopPartition{Partition: p} }
+
+func verifUnwrap(p Partition) *partition {
+	for {
+		switch x := p.(type) {
+		case *partition:
+			return x
+		case verifNoLoopPartition:
+			p = x.Partition
+		default:
+			return nil
+		}
+	}
+}
+
+// VerifReplicaStep runs exactly one iteration of the body of partition.replicaLoop for the replicator of
+// the given node: partition.replica(node, replicator). found=false if the partition has no such replicator.
+// panics = number of panics the step recovered (partition.replica recovers and counts them).
+func VerifReplicaStep(p Partition, node models.NodeID) (found bool, panics int) {
+	pp := verifUnwrap(p)
+	if pp == nil {
+		return false, 0
+	}
+	r, ok := pp.replicators[node]
+	if !ok {
+		return false, 0
+	}
+	st := pp.replicatorStatistics[node]
+	before := st.ReplicaPanics.Get()
+	pp.replica(node, r)
+	return true, int(st.ReplicaPanics.Get() - before)
+}
+
+// VerifReplicatorInfo is a read-only view of one replicator of a partition.
+type VerifReplicatorInfo struct {
+	Exists     bool
+	Remote     bool
+	State      models.ReplicatorState
+	ErrMsg     string
+	Suspended  bool // remote replicator parked (or about to park) in IsReady waiting for the follower to come online
+	StreamOpen bool // remote replicator holds a replica stream
+	Consumed   int64
+	Ack        int64
+}
+
+// VerifReplicatorInfoOf returns the read-only view of the replicator for the given node.
+func VerifReplicatorInfoOf(p Partition, node models.NodeID) (info VerifReplicatorInfo) {
+	pp := verifUnwrap(p)
+	if pp == nil {
+		return
+	}
+	r, ok := pp.replicators[node]
+	if !ok {
+		return
+	}
+	info.Exists = true
+	s := r.State()
+	info.State, info.ErrMsg = s.state, s.errMsg
+	info.Consumed = r.ReplicaIndex() - 1
+	info.Ack = r.AckIndex()
+	if rr, ok := r.(*remoteReplicator); ok {
+		info.Remote = true
+		info.Suspended = rr.isSuspend.Load()
+		info.StreamOpen = rr.replicaStream != nil
+	}
+	return
+}
+
+// VerifLog returns the fan-out queue (the log) of a partition.
+func VerifLog(p Partition) queue.FanOutQueue {
+	pp := verifUnwrap(p)
+	if pp == nil {
+		return nil
+	}
+	return pp.log
+}
